@@ -119,10 +119,10 @@ func hostileCases(e *Env, t *schema.Type) []hcase {
 			}
 		}
 	}
-	nRand := e.N(400, 6000)
-	nMut := e.N(400, 6000)
-	nPre := e.N(150, 2000)
-	nKey := e.N(100, 1200)
+	nRand := e.N(400, 60000)
+	nMut := e.N(400, 60000)
+	nPre := e.N(150, 20000)
+	nKey := e.N(100, 12000)
 	rng := gen.NewRng(e.Seed, "hostile", t.QName)
 	_ = gen.DefaultLens
 	// (0) a legitimate LARGE message comes first (60 000-element lists actually present), built from the same
